@@ -261,7 +261,10 @@ class CircuitTemplate(AbstractBaseTemplate):
         self.__doc__ = description
         self.circuits = circuits
         self.nodes = nodes
-        self.edges = edges
+        # re-register the edges: `update_edges` works on copies of the edge tuples, so the (source, target, idx) map that
+        # `get_edge` / `update_var(edge_vars=...)` use has to point at the new ones (and know the added edges)
+        self._edge_map = {}
+        self.edges = self._load_edge_templates(edges)
 
     def update_var(self, node_vars: dict = None, edge_vars: list = None):
         """Update the value of node or edge variables.
